@@ -123,7 +123,8 @@ def check_uncompute(ctx: Ctx, replay_rule: bool = True):
     ctx.check(norm(core) == "self.gates_computed" and par == 1, "MP-reverse", fi, "replay in reverse order", "for ... in reversed(self.gates_computed)", f"iterates `{norm(loop.iter)}` (source `{norm(core)}`, {par} reversal(s)): the inverse of a gate product is the reversed product", loop)
     g, ws, p = (norm(e) for e in loop.target.elts)
     apps = [c for c in q.calls(loop) if dotted(c.func) == "self.append"]
-    ok = len(apps) == 1 and [norm(a) for a in apps[0].args] == [g, ws, p]
+    ba = q.bound_args(ctx.repo, apps[0], ("gate", "qubits", "param")) if len(apps) == 1 else None
+    ok = ba is not None and [norm(a) if a is not None else None for a in ba] == [g, ws, p]
     ctx.check(ok, "MP-reverse", fi, "same gate, same wires, same parameter", "", "the replayed gate is not the recorded gate on the recorded wires", apps[0] if apps else loop)
     if apps:
         facts = [(norm(e), pol) for e, pol in guard_facts(fi, apps[0], duals=True)]
@@ -175,7 +176,8 @@ def check_uncompute_all(ctx: Ctx):
     ctx.check(src != norm(core) or norm(core) != "self.gates", "MP-reverse", fi, "iterates a snapshot", "", "iterates the live gate list it appends to", loop)
     g, ws, p = (norm(e) for e in loop.target.elts)
     apps = [c for c in q.calls(loop) if dotted(c.func) == "self.append"]
-    ok = len(apps) == 1 and [norm(a) for a in apps[0].args] == [g, ws, p]
+    ba = q.bound_args(ctx.repo, apps[0], ("gate", "qubits", "param")) if len(apps) == 1 else None
+    ok = ba is not None and [norm(a) if a is not None else None for a in ba] == [g, ws, p]
     ctx.check(ok, "MP-reverse", fi, "same gate, same wires, same parameter", "", "the replayed gate is not the recorded gate on the recorded wires", apps[0] if apps else loop)
     if not apps:
         return
